@@ -407,6 +407,23 @@ func TestC09(t *testing.T) {
 			}
 		}
 	}
+	// a later state of the same scenario: every retention has ended (expired rows of ordered
+	// subscriptions are what the prune jobs' wake-ups are about), subscriptions b and c are due to expire
+	{
+		late := append(append([]Op{}, prefix...), Op{K: "advance", D: 700 * Sec}, Op{K: "publish", Topic: "t", Msgs: []MsgSpec{{N: 20, Key: "k"}}})
+		for _, tg := range []faultTarget{
+			{"late-prune-expired-deliveries", Op{K: "prune_expired_deliveries", Max: 5}},
+			{"late-prune-completed-messages", Op{K: "prune_completed_messages", Max: 5}},
+			{"late-pull-ordered", Op{K: "pull", Sub: "a", Max: 3}},
+			{"late-publish-ordered", Op{K: "publish", Topic: "t", Msgs: []MsgSpec{{N: 21, Key: "k"}}}},
+		} {
+			if !ok {
+				break
+			}
+			st.Distinct(tg.name)
+			ok = scan(Seed(), late, tg)
+		}
+	}
 	for _, tg := range targets {
 		if !ok {
 			break
